@@ -111,7 +111,8 @@ STATEMENT_STATUS: Dict[str, str] = {
                           "final state and glyphs unchanged (induction over programs)",
     "C05_unlisted_erase_page": "proved: ... for pages, and the interpreter reports exactly the glyphs of the page without them",
     "C05_unlisted_spec": "proved: where the text model admits such an operator it changes nothing and shows nothing",
-    "C05_unlisted_admitted": "proved: at page level the text model admits each of them with <= its ISO operand count",
+    "C05_unlisted_admitted": "proved: the text model admits each of them with <= its ISO operand count - all at page level, "
+                             "general graphics state / marked content / BX EX also inside a text object",
 }
 
 TOL = F(1, 2 ** 30)
